@@ -40,7 +40,7 @@ func loadEnvInternal(env map[string]string, prefix string, prv reflect.Value) er
 			if err != nil {
 				return fmt.Errorf("%s: %w", prefix, err)
 			}
-		} else if envHasAtLeastAKeyWithPrefix(env, prefix) {
+		} else if envHasAtLeastAKeyWithPrefix(env, prefix+"_") {
 			err := i.UnmarshalEnv(prefix, "")
 			if err != nil {
 				return fmt.Errorf("%s: %w", prefix, err)
